@@ -88,3 +88,28 @@ Proof.
   destruct Hs2 as (s2 & ->). simpl.
   rewrite (int_mul_total GB (pl_gb p)) by (try nia; lia). simpl. eauto.
 Qed.
+
+(* registrations: an account that is not registered yet and can pay the registration deposit IS registered *)
+Lemma fund_pool_ok s a c : 0 <= c.2 <= bal s a c.1 -> exists s', fund_pool s a c = Ok s'.
+Proof.
+  intros H. unfold fund_pool. destruct (Z.eqb_spec c.2 0); [eauto|]. apply bank_send_ok. exact H.
+Qed.
+
+Theorem prov_register_complete s from n i w d :
+  get_provider s (ta_bytes from) = None ->
+  0 <= (p_prov_deposit (pars s)).2 <= bal s (ta_bytes from) (p_prov_deposit (pars s)).1 ->
+  exists s', h_prov_register s from n i w d = Ok s'.
+Proof.
+  intros Hnone Hbal. unfold h_prov_register, has_provider. rewrite Hnone. simpl.
+  destruct (fund_pool_ok s (ta_bytes from) _ Hbal) as [s1 ->]. simpl. eauto.
+Qed.
+
+Theorem node_register_complete s from gb hr url :
+  valid_gb_prices s (coins_of gb) = true -> valid_hr_prices s (coins_of hr) = true ->
+  get_node s (ta_bytes from) = None ->
+  0 <= (p_node_deposit (pars s)).2 <= bal s (ta_bytes from) (p_node_deposit (pars s)).1 ->
+  exists s', h_node_register s from gb hr url = Ok s'.
+Proof.
+  intros Hg Hh Hnone Hbal. unfold h_node_register, has_node. rewrite Hg, Hh, Hnone. simpl.
+  destruct (fund_pool_ok s (ta_bytes from) _ Hbal) as [s1 ->]. simpl. eauto.
+Qed.
